@@ -76,7 +76,9 @@ where
         w.entropy = Rng::new(env.hash_seed);
         w.entropy_calls = 0;
         w.clock_reads = 0;
-        w.now_unix = unix_noon(env.today);
+        // Same simulated day, but every simulated process sees its own time of day and pid.
+        w.now_unix = unix_noon(env.today) + (env.hash_seed % 21_600) as i64 - 10_800;
+        w.pid = 10_000 + (env.hash_seed % 50_000) as i32;
         w.unmodelled.clear();
         w.fs.begin_process(env.knobs.clone(), env.fs_faults.clone());
     });
